@@ -229,6 +229,11 @@ type StreamConn struct {
 	Touched    []string // operations made on the connection while Frozen, at a later simulated instant than the freeze
 	FrozenAt   time.Time
 	FailWrites int // inject: fail the next n writes after accepting a prefix
+	// TransientAt > 0: when exactly that many octets have been handed to this side's reader, its next
+	// Read fails once with a temporary, non-timeout error (an interrupted system call); the read before
+	// is cut short so that it ends there. Reading carries on afterwards as if nothing had happened.
+	TransientAt   int
+	transientDone bool
 }
 
 // Pair creates a connected pair (client side, server side).
@@ -331,10 +336,17 @@ func (o *readOp) Done(now time.Time) {
 		o.err = ErrClosed
 	case expired(c.rdl, now):
 		o.err = ErrTimeout
+	case c.TransientAt > 0 && !c.transientDone && c.ReadTotal == c.TransientAt && (len(c.rx.buf) > 0 || c.rx.eof || c.rx.rst):
+		c.transientDone = true
+		o.err = ErrTransient
+		c.n.K.BumpLocked("fault.stream_read_interrupted")
 	case len(c.rx.buf) > 0:
 		n := len(o.p)
 		if n > len(c.rx.buf) {
 			n = len(c.rx.buf)
+		}
+		if c.TransientAt > 0 && !c.transientDone && c.ReadTotal < c.TransientAt && c.ReadTotal+n > c.TransientAt {
+			n = c.TransientAt - c.ReadTotal
 		}
 		if n > 1 && c.n.Stream.ShortRead > 0 && c.n.K.Env.IntN(100) < c.n.Stream.ShortRead {
 			n = 1 + c.n.K.Env.IntN(n-1)
